@@ -929,6 +929,7 @@ def fmt_to_opcode(fmt):
 
 class Memory(Expression):
     bits_to_opcode = {32: Opcode.W, 16: Opcode.H, 8: Opcode.B, 64: Opcode.DW}
+    atomic = True  # in-place additions may use the atomic XADD
 
     def __init__(self, ebpf, fmt, address):
         self.ebpf = ebpf
@@ -936,13 +937,13 @@ class Memory(Expression):
         self.address = address
 
     def __iadd__(self, value):
-        if self.fmt in "qQiIx":
+        if self.atomic and self.fmt in "qQiIx":
             return IAdd(self.ebpf, value)
         else:
             return NotImplemented
 
     def __isub__(self, value):
-        if self.fmt in "qQiIx":
+        if self.atomic and self.fmt in "qQiIx":
             return IAdd(self.ebpf, -value)
         else:
             return NotImplemented
@@ -1073,13 +1074,16 @@ class MemoryDesc:
     """
 
     fixed = False  # only selected memory can have fixe value vars
+    atomic = True  # False where the kernel allows no atomic operations
 
     def __get__(self, instance, owner):
         if instance is None:
             return self
         fmt, addr = self.fmt_addr(instance)
-        return Memory(instance.ebpf, fmt,
-                      instance.ebpf.r[self.base_register] + addr)
+        ret = Memory(instance.ebpf, fmt,
+                     instance.ebpf.r[self.base_register] + addr)
+        ret.atomic = self.atomic
+        return ret
 
     def __set__(self, instance, value):
         fmt, addr = self.fmt_addr(instance)
